@@ -1,7 +1,7 @@
 """C04 — per-account nonces give exactly-once, in-order execution."""
 from props import common
 
-THEOREMS = ["C04_holds", "C04_holds_native", "C04_step", "C04_step_evm", "C04_fail", "C04_begin", "C04_end", "C04_commit"]
+THEOREMS = ["C04_checked", "C04_checked_case", "C04_checked_run_ok'", "C04_checked_hist_ok_refuted", "C04_holds", "C04_holds_native", "C04_step", "C04_step_evm", "C04_fail", "C04_begin", "C04_end", "C04_commit"]
 
 
 def run(ctx):
